@@ -10,6 +10,9 @@ def handle (fn : String) (args : List Json) : String :=
   | "format" => match args with
     | [a0] => (do let x0 ← Wire.decStr a0; pure (Wire.respondWith Wire.encStr (Gen.be_bis.format x0)) : Option String).getD "badargs"
     | _ => "badargs"
+  | "get_birth_date" => match args with
+    | [t, a0] => (do let today__ ← Wire.decDate t; let x0 ← Wire.decStr a0; pure (Wire.respondWith (Wire.encOpt Wire.encDate) (Gen.be_bis.get_birth_date today__ x0)) : Option String).getD "badargs"
+    | _ => "badargs"
   | "get_birth_month" => match args with
     | [t, a0] => (do let today__ ← Wire.decDate t; let x0 ← Wire.decStr a0; pure (Wire.respondWith (Wire.encOpt Wire.encInt) (Gen.be_bis.get_birth_month today__ x0)) : Option String).getD "badargs"
     | _ => "badargs"
